@@ -5,6 +5,8 @@ package dbSync
 //
 //vf:job C08 quick VF_C08_PipeCopy reads=1..3 waitfull=0..1
 //vf:job C08 quick VF_C08_Reconnect nrdb=0..1 c08=1
+//vf:job C08 quick VF_C08_AckAfterRdb nrdb=1..3
+//vf:replayE C08 VF_C08_AckAfterRdb
 //vf:job C05 quick VF_C08_Reconnect nrdb=0..3
 //vf:replayE C08 VF_C08_PipeCopy VF_C08_Reconnect
 //vf:replayE C05 VF_C08_Reconnect
@@ -232,4 +234,51 @@ func VF_C08_Reconnect() {
 		}
 	}
 	vfAssertTwin(len(got) == 0, "twin")
+}
+
+// full sync followed by traffic: the first acknowledgement counts exactly the stream bytes that
+// followed the RDB, whatever the segmentation (RDB tail and first commands in one segment or not)
+func VF_C08_AckAfterRdb() {
+	nrdb := vfParam("nrdb", 1)
+	vfStubEnv()
+	tick := make(chan time.Time)
+	vfStub("time.NewTicker", func(d time.Duration) *time.Ticker { return &time.Ticker{C: tick} })
+	start := int64(700)
+	rdb := vfBytes("rdb", nrdb)
+	cmd1 := vfBytes("cmd1", 3)
+	c1 := &vfNetConn{tick: tick, park: true}
+	switch vfPick("seg", 3) {
+	case 0:
+		c1.chunks = [][]byte{append(append([]byte{}, rdb...), cmd1...)}
+	case 1:
+		c1.chunks = [][]byte{rdb, cmd1}
+	default:
+		c1.chunks = [][]byte{append(append([]byte{}, rdb...), cmd1[:1]...), cmd1[1:]}
+	}
+	// one tick once everything has arrived
+	c1.tickBefore = make([]bool, len(c1.chunks)+1)
+	c1.tickBefore[len(c1.chunks)] = true
+	c1.nacks = func() int { return len(vfAckOffsets(c1.written)) }
+	ds := &DbSyncer{id: 0, node: &slot.SyncNode{Source: "s:1"}, WaitFull: make(chan struct{})}
+	close(ds.WaitFull)
+	ds.sourceOffset = start
+	piper, pipew := pipe.NewSize(1)
+	br := bufio.NewReaderSize(c1, 64)
+	bw := bufio.NewWriterSize(c1, 64)
+	go ds.runIncrementalSync(c1, br, bw, nrdb, "run-1", "s:1", "auth", "pw", false, pipew, true)
+	want := append(append([]byte{}, rdb...), cmd1...)
+	got := make([]byte, 0, len(want))
+	buf := make([]byte, 8)
+	for len(got) < len(want) {
+		n, err := piper.Read(buf)
+		if err != nil {
+			vfFail("pipe closed early")
+		}
+		got = append(got, buf[:n]...)
+	}
+	vfAssert(vfEqBytes(got, want), "hand-off bytes")
+	vfWaitFor(func() bool { return len(vfAckOffsets(c1.written)) >= 1 })
+	acks := vfAckOffsets(c1.written)
+	vfAssert(acks[0] == start+int64(len(cmd1)), "first acknowledgement after the full sync is not start offset + stream bytes received (RDB bytes must not count, stream bytes must all count)")
+	vfAssertTwin(acks[0] == 0, "twin")
 }
